@@ -63,6 +63,13 @@ def main():
     violations = []      # (description, replay payload) with a concrete failing input
     notes = []
 
+    # ---- 0 translator: regenerate the source facts from /repo/src --------------------------
+    rc_t, out_t = vlib.sh([sys.executable, os.path.join(vlib.VERIF, "tools", "translate.py")])
+    if rc_t != 0:
+        notes.append("translator failed: " + out_t[-500:])
+    elif "problems" in out_t:
+        notes.append(out_t.strip()[-800:])
+
     # ---- 1 proof obligations -------------------------------------------------------------
     ok, out = vlib.lake_build(list(mod.LEAN_MODULES) + ["driver"])
     theorems = []
@@ -148,7 +155,7 @@ def main():
             disagreements.append({"line": c["line"], "model": m, "impl": i})
         if c["line"] not in distinct:
             distinct.add(c["line"])
-            if mod.nontrivial(c, ri):
+            if "corpus" in c.get("meta", {}) or mod.nontrivial(c, ri):
                 nontrivial += 1
     if internal:
         print("INTERNAL: generator produced cases the runners reject:")
@@ -174,6 +181,7 @@ def main():
     if hasattr(mod, "extra"):
         ex = mod.extra(rng, tier)
         extra_eval = ex.get("evaluations", 0)
+        nontrivial += ex.get("nontrivial", 0)
         oracle_fail += ex.get("failures", [])
         notes += ex.get("notes", [])
         hist.update({f"extra:{k}": v for k, v in ex.get("hist", {}).items()})
